@@ -664,7 +664,7 @@ pub fn plans(props: &[&'static str], tier: Tier) -> Vec<Plan> {
     let small4 = || Arc::new(Cfg::simple(4, false, props));
     let big3 = || Arc::new(Cfg::simple(3, true, props));
     let big2 = || Arc::new(Cfg::simple(2, true, props));
-    let cap = tier.pick(2_000_000, 8_000_000);
+    let cap = tier.pick(2_000_000, 5_000_000);
     let p = |cfg: Arc<Cfg>, bounds: Bounds, secs: u64| Plan { cfg, bounds, secs, prefix: vec![] };
     let pr = |cfg: Arc<Cfg>, bounds: Bounds, secs: u64, root: &str| Plan { cfg, bounds: Bounds { name: format!("{}@{}", bounds.name, root), ..bounds }, secs, prefix: big_root(root) };
     match tier {
@@ -681,25 +681,25 @@ pub fn plans(props: &[&'static str], tier: Tier) -> Vec<Plan> {
             pr(big3(), mk("hs-3nodes-big-values", true, &[0], &three, 3, &[1, 3], [1, 0, 0, 1, 1, 3, 0], cap), 8, "truncated-copy"),
         ],
         Tier::Thorough => vec![
-            p(small3(), mk("msg-3nodes-1writer", false, &[0], &all, 2, &[1, 2], [2, 2, 1, 1, 1, 0, 0], cap), 120),
-            p(small3(), mk("msg-3nodes-1writer", false, &[0], &all, 2, &[1, 2], [3, 2, 0, 1, 1, 0, 0], cap), 120),
+            // message granularity
+            p(small3(), mk("msg-3nodes-1writer", false, &[0], &all, 2, &[1, 2], [2, 2, 1, 1, 1, 0, 0], cap), 150),
+            p(small3(), mk("msg-3nodes-1writer", false, &[0], &all, 2, &[1, 2], [3, 2, 0, 1, 1, 0, 0], cap), 200),
             p(small3(), mk("msg-3nodes-1writer", false, &[0], &all, 2, &[1, 2], [2, 3, 0, 1, 1, 0, 0], cap), 240),
-            p(small3(), mk("msg-3nodes-1writer", false, &[0], &all, 2, &[1, 2], [3, 3, 1, 2, 1, 0, 0], cap), 600),
-            p(small3(), mk("msg-3nodes-1writer-restart", false, &[0], &three, 2, &[1, 2], [2, 2, 0, 1, 1, 0, 1], cap), 300),
-            p(small2(), mk("msg-2nodes-2writers", false, &[0, 1], &all, 2, &[1, 2], [2, 2, 1, 1, 1, 0, 0], cap), 120),
-            p(small2(), mk("msg-2nodes-2writers", false, &[0, 1], &all, 2, &[1, 2], [3, 3, 1, 2, 1, 0, 0], cap), 600),
-            p(small2(), mk("msg-2nodes-2writers", false, &[0, 1], &three, 2, &[1, 2], [4, 3, 2, 3, 2, 0, 0], cap), 600),
-            p(big2(), mk("msg-2nodes-big-values", false, &[0], &three, 3, &[1, 3], [3, 3, 1, 1, 1, 0, 0], cap), 300),
-            p(big3(), mk("hs-3nodes-big-values", true, &[0], &three, 3, &[1, 3], [3, 0, 0, 2, 1, 4, 0], cap), 300),
-            p(big3(), mk("hs-3nodes-big-values", true, &[0], &three, 3, &[1, 3], [4, 0, 0, 2, 1, 5, 0], cap), 600),
-            p(big3(), mk("hs-3nodes-big-values", true, &[0], &three, 3, &[1, 3, 4], [5, 0, 0, 3, 2, 6, 0], cap), 900),
-            p(big3(), mk("hs-3nodes-big-values-2writers", true, &[0, 1], &three, 2, &[1, 3], [4, 0, 0, 1, 1, 4, 0], cap), 600),
-            p(small3(), mk("hs-3nodes-small-values", true, &[0], &all, 3, &[1, 2], [4, 0, 0, 2, 2, 5, 0], cap), 300),
-            p(small3(), mk("hs-3nodes-small-values", true, &[0, 1], &all, 3, &[1, 2], [5, 0, 0, 3, 2, 6, 0], cap), 900),
+            p(small3(), mk("msg-3nodes-1writer-restart", false, &[0], &three, 2, &[1, 2], [2, 2, 0, 1, 1, 0, 1], cap), 200),
+            p(small2(), mk("msg-2nodes-2writers", false, &[0, 1], &all, 2, &[1, 2], [3, 2, 1, 1, 1, 0, 0], cap), 200),
+            p(small2(), mk("msg-2nodes-2writers", false, &[0, 1], &three, 2, &[1, 2], [2, 3, 1, 2, 1, 0, 0], cap), 240),
+            p(big2(), mk("msg-2nodes-big-values", false, &[0], &three, 3, &[1, 3], [3, 2, 1, 1, 1, 0, 0], cap), 200),
+            // handshake granularity, 40 KB values
+            p(big3(), mk("hs-3nodes-big-values", true, &[0], &three, 3, &[1, 3], [3, 0, 0, 1, 1, 4, 0], cap), 200),
+            p(big3(), mk("hs-3nodes-big-values", true, &[0], &three, 3, &[1, 3, 4], [3, 0, 0, 2, 1, 5, 0], cap), 300),
+            p(big3(), mk("hs-3nodes-big-values-2writers", true, &[0, 1], &three, 2, &[1, 3], [3, 0, 0, 1, 1, 4, 0], cap), 240),
+            pr(big3(), mk("hs-3nodes-big-values", true, &[0], &three, 3, &[1, 3], [2, 0, 0, 1, 1, 4, 0], cap), 240, "synced-with-top-tombstone"),
+            pr(big3(), mk("hs-3nodes-big-values", true, &[0], &three, 3, &[1, 3], [2, 0, 0, 1, 1, 4, 0], cap), 240, "owner-collected-top-tombstone"),
+            pr(big3(), mk("hs-3nodes-big-values", true, &[0], &three, 3, &[1, 3], [2, 0, 0, 2, 1, 4, 0], cap), 240, "truncated-copy"),
+            // handshake granularity, small values
+            p(small3(), mk("hs-3nodes-small-values", true, &[0], &all, 3, &[1, 2], [4, 0, 0, 2, 1, 5, 0], cap), 300),
+            p(small3(), mk("hs-3nodes-small-values-2writers", true, &[0, 1], &all, 2, &[1, 2], [4, 0, 0, 2, 1, 5, 0], cap), 300),
             p(small4(), mk("hs-4nodes-small-values", true, &[0], &all, 3, &[1, 2], [3, 0, 0, 1, 1, 5, 0], cap), 300),
-            pr(big3(), mk("hs-3nodes-big-values", true, &[0], &three, 3, &[1, 3], [2, 0, 0, 1, 1, 4, 0], cap), 600, "synced-with-top-tombstone"),
-            pr(big3(), mk("hs-3nodes-big-values", true, &[0], &three, 3, &[1, 3], [2, 0, 0, 1, 1, 4, 0], cap), 600, "owner-collected-top-tombstone"),
-            pr(big3(), mk("hs-3nodes-big-values", true, &[0], &three, 3, &[1, 3], [2, 0, 0, 2, 1, 4, 0], cap), 600, "truncated-copy"),
         ],
     }
 }
@@ -715,6 +715,9 @@ pub fn run(property: &'static str, tier: Tier) -> Vec<Part> {
     for (pi, plan) in plans(&props, tier).into_iter().enumerate() {
         // C01 adds a closure per plan: in the quick tier it runs on a subset of the plans
         if property == "C01" && tier == Tier::Quick && [1usize, 3, 5, 6].contains(&pi) {
+            continue;
+        }
+        if property == "C01" && tier == Tier::Thorough && [2usize, 3, 5, 6].contains(&pi) {
             continue;
         }
         let t0 = Instant::now();
@@ -742,7 +745,7 @@ pub fn run_traffic(property: &'static str, tier: Tier) -> Vec<Part> {
     // the handshake-granularity plans (small values, 40 KB values incl. non-initial roots) and one message-granularity plan
     let pick: Vec<usize> = match tier {
         Tier::Quick => vec![0, 4, 6, 7, 8, 9],
-        Tier::Thorough => (0..all.len()).filter(|i| ![3usize, 6, 7].contains(i)).collect(),
+        Tier::Thorough => vec![0, 4, 6, 7, 8, 9, 10, 11, 12, 13, 14],
     };
     for (i, plan) in all.into_iter().enumerate() {
         if !pick.contains(&i) {
